@@ -12,6 +12,12 @@ type PropDef struct {
 var propOrder = []string{"C01", "C02", "C03", "C04", "C05", "C06", "C07", "C08", "C09", "C11", "C12", "C13", "C14", "C15", "C16", "C17", "C18", "C19", "C20"}
 
 var props = map[string]*PropDef{
+	"C17": {
+		Rules:      []string{"PREC-1", "USER-1", "USER-2", "ERR-1"},
+		Decided:    "(in progress)",
+		NotDecided: "(in progress)",
+		Technique:  "structural ordering + bracket rule",
+	},
 	"C08": {
 		Rules:      []string{"NS-1", "NS-2", "NS-3", "MAPCACHE-1", "TXN-1"},
 		Decided:    "(in progress)",
@@ -37,7 +43,7 @@ var props = map[string]*PropDef{
 		Technique:  "path-sensitive go/cfg dataflow",
 	},
 	"C02": {
-		Rules:      []string{"FP-1", "FP-2", "FP-3", "FP-4", "STALE-3", "NS-2", "SINK-1"},
+		Rules:      []string{"FP-1", "FP-2", "FP-3", "FP-4", "STALE-3", "NS-2", "SINK-1", "USER-1", "USER-2", "ERR-1"},
 		Decided:    "(in progress)",
 		NotDecided: "(in progress)",
 		Technique:  "path-sensitive go/cfg dataflow",
